@@ -43,7 +43,7 @@ Rules
    - patch.diff : `git diff -- basic_robotics` of your change (must apply with `git apply` on the unchanged worktree)
    - demo.py    : a plain script using only the public API that exits 0 on the UNCHANGED code and exits 1 (AssertionError with a
                   readable message) WITH your change; it checks the property itself (not your implementation detail), so it would
-                  also pass for any other correct implementation.  Verify both outcomes yourself (git stash / git stash pop).
+                  also pass for any other correct implementation.  Verify both outcomes yourself with `git apply -R _seeded/patch.diff` / `git apply _seeded/patch.diff` - do NOT use git stash (the stash is shared by all worktrees of the repository).
    - meta.json  : {{"property": "{pid}", "summary": "...", "needs_to_manifest": "...", "files_changed": [...], "tests_run": "..."}}
    Leave the worktree with the patch applied.
 7. Final report: the diff, what it needs to manifest, the test-suite result before/after, the demo outcome before/after.
